@@ -4,7 +4,8 @@ Subject: the real main.enip_srv_tcp loop run through the production per-connecti
 under a scripted recv(); work is measured deterministically as the number of Python calls the server thread makes.
 Hostile inputs: the COMPLETE one-edit neighbourhood of every kind of valid frame (every byte x a substitution
 alphabet, every deletion, every insertion, every truncation, every length/count/offset/size field from the reference
-codec's field map x {0,1,true-1,true+1,2*true,max}; thorough: all pairs of such field edits), all inputs of length <= 2,
+codec's field map x {0,1,true-1,true+1,2*true,max}; truncations by 1..8 bytes at the end of every region a length field measures
+with all enclosing lengths adjusted; thorough: all pairs of such field edits), all inputs of length <= 2,
 all 24-byte headers over boundary command/length values -- each placed at several points of a session and followed
 by probes on the same connection, on a parked older session and on a new session.
 Datagram service: the real main.enip_srv_udp loop under a scripted recvfrom() (mc.sim.run_udp); one hostile datagram from peer A
@@ -43,9 +44,19 @@ SESSION = 0x1000
 CONN_T_O = 0x1A2B3C4D
 
 
+WRITE_REQUESTS = {}      # seed name -> encoded write request(s) inside it (filled by seeds())
+
+
 def seeds(tier):
     """name -> (frame bytes, [(field, start, end, kind)] length-like fields, needs_forward_open)"""
     a = R.symbolic("a")
+    WRITE_REQUESTS.update({
+        "rr_write": [R.write_tag(a, R.INT, [1, 2, 3])],
+        "rr_write_wrapped": [R.write_tag(R.symbolic("a", 1), R.INT, [9])],
+        "rr_bundle": [R.write_tag(a, R.INT, [5, 5])],
+        "unit_write": [R.write_tag(a, R.INT, [4, 4])],
+        "rr_write_frag": [R.write_frag(a, R.INT, [6], 4, 4)],
+    })
     rp = [{"port": 1, "link": 0}]
     out = {}
 
@@ -93,6 +104,8 @@ def edits(seed, lengths, tier):
     fields = field_edits(seed, lengths)
     for lab, data in fields:
         yield lab, data
+    for lab, data in consistent_truncations(seed, lengths):
+        yield lab, data
     if tier != "quick":
         for (la, (s1, e1, v1)), (lb, (s2, e2, v2)) in itertools.combinations(raw_field_edits(seed, lengths), 2):
             if la[1] == lb[1]:
@@ -101,6 +114,28 @@ def edits(seed, lengths, tier):
             d[s1:e1] = v1
             d[s2:e2] = v2
             yield ("field2", la[1], la[2], lb[1], lb[2]), bytes(d)
+
+
+def consistent_truncations(seed, lengths):
+    """Truncation at an inner nesting level with every ENCLOSING level kept consistent: the last k bytes of the region a length field
+    measures are removed and every length field whose region contains them is decremented by k -- the frame, the CPF item and any
+    wrapper still add up; only the innermost structure (a bundle member, a value list, a path) comes up short."""
+    regions = []
+    for name, s, e, kind in lengths:
+        if kind != "len":
+            continue
+        v = int.from_bytes(seed[s:e], "little")
+        start = 24 if (s, e) == (2, 4) else e
+        if v and start + v <= len(seed):
+            regions.append((name, s, e, start, start + v))
+    for name, s, e, start, end in regions:
+        for k in range(1, min(8, end - start) + 1):
+            d = bytearray(seed[:end - k] + seed[end:])
+            for _n2, s2, e2, start2, end2 in regions:
+                if start2 <= end - k and end <= end2:
+                    v2 = int.from_bytes(seed[s2:e2], "little") - k
+                    d[s2:e2] = v2.to_bytes(e2 - s2, "little")
+            yield ("ctrunc", name, k, end), bytes(d)
 
 
 def raw_field_edits(seed, lengths):
@@ -253,9 +288,25 @@ TIER_OF_RUN = ["quick"]
 _poisoned = [False]      # a server thread of this worker process is stuck for good (holding a class-level parser lock)
 
 
-def run_hostile(hostile, placement, need_fo=False, probes=True, allowed=(), want_store=False):
+def cuts_a_write(seedname, seed, lo, hi):
+    """bytes [lo,hi) removed from `seed` lie inside the bytes of the seed's write request, and what remains of that request is
+    refused by the reference decoder (cut in mid-value or in its header): the only request of the frame able to write is then
+    not a complete, well-formed write request"""
+    for w in WRITE_REQUESTS.get(seedname, ()):
+        pos = seed.find(w)
+        if pos < 0 or not (pos <= lo and hi <= pos + len(w)):
+            continue
+        rest = w[:lo - pos] + w[hi - pos:]
+        try:
+            R.dec_request(rest)
+        except Exception:
+            return True
+    return False
+
+
+def run_hostile(hostile, placement, need_fo=False, probes=True, allowed=(), want_store=False, no_change=False):
     try:
-        return _run_hostile(hostile, placement, need_fo, probes, allowed, want_store)
+        return _run_hostile(hostile, placement, need_fo, probes, allowed, want_store, no_change)
     except sim.SessionHang as exc:
         _poisoned[0] = True
         bad = [("hang", "after %d hostile bytes in placement %r a session of the simulator stopped responding: %s"
@@ -263,7 +314,7 @@ def run_hostile(hostile, placement, need_fo=False, probes=True, allowed=(), want
         return (bad, None) if want_store else bad
 
 
-def _run_hostile(hostile, placement, need_fo=False, probes=True, allowed=(), want_store=False):
+def _run_hostile(hostile, placement, need_fo=False, probes=True, allowed=(), want_store=False, no_change=False):
     """Place `hostile` in a session; returns [(kind,msg)].  allowed: stores that are acceptable besides 'unchanged' (the effect
     of the valid frame the hostile input was derived from: a lenient parser may still perform exactly that write)."""
     bad = []
@@ -336,7 +387,12 @@ def _run_hostile(hostile, placement, need_fo=False, probes=True, allowed=(), wan
     if not ss.alive and not ss.conn.closed:
         bad.append(("connection-not-closed", "server loop ended without closing the connection"))
     store = S.store()
-    if store != base_store and store not in allowed and not want_store and not contains_wellformed_write(hostile + probe) \
+    if no_change and store != base_store and not want_store:
+        # the frame's write request was cut short (all enclosing lengths consistent) and the reference decoder refuses what is left
+        # of it: the only request able to write is not a complete, well-formed write
+        bad.append(("store-changed-by-truncated-request", "store %r -> %r after a frame whose innermost request was cut short "
+                    "(enclosing lengths consistent; the reference decoder refuses what is left of the write request)" % (base_store, store)))
+    elif store != base_store and store not in allowed and not want_store and not contains_wellformed_write(hostile + probe) \
             and not explained_by_embedded_write(hostile + probe, base_store, store):
         bad.append(("store-changed-by-malformed-input", "store %r -> %r: not the effect of the valid frame this input was derived from "
                     "(%r), and the delivered bytes (input + following valid frame) contain no well-formed write request" % (base_store, store, list(allowed))))
@@ -512,9 +568,14 @@ def _shard(acc, item, tier, seed, stop_at, counter):
             acc.ev()
             acc.ntc()
             acc.outcome(label[0])
-            bad = run_hostile(hostile, placement, need_fo=fo, probes=True, allowed=allowed)
+            # a consistent inner truncation that cuts the seed's (only) write request in mid-value or in its header: nothing may change
+            no_change = label[0] == "ctrunc" and cuts_a_write(name, data, label[3] - label[2], label[3])
+            if no_change:
+                acc.outcome("ctrunc-cuts-the-write")
+            bad = run_hostile(hostile, placement, need_fo=fo, probes=True, allowed=allowed, no_change=no_change)
             for kk, m in bad:
-                acc.violation(kk, {"hostile": hostile, "placement": placement, "fo": fo, "label": list(label), "seed": name}, m)
+                acc.violation(kk, {"hostile": hostile, "placement": placement, "fo": fo, "label": list(label), "seed": name,
+                                   "no_change": no_change}, m)
             if _poisoned[0]:
                 return
         acc.sample({"hostile": data[:20] + b"\xff" + data[21:], "placement": placement, "fo": fo, "seed": name})
@@ -615,7 +676,7 @@ def run(ctx):
 
 def guards(acc, ctx):
     g = []
-    for k in ("sub", "del", "ins", "trunc", "field", "short", "header", "udp:sub", "udp:trunc", "udp:surplus", "udp:short", "udp:field"):
+    for k in ("sub", "del", "ins", "trunc", "field", "ctrunc", "ctrunc-cuts-the-write", "short", "header", "udp:sub", "udp:trunc", "udp:surplus", "udp:short", "udp:field"):
         if not acc.outcomes.get(k):
             g.append("outcome %s never observed" % k)
     return g
@@ -643,7 +704,8 @@ def replay(case):
     allowed = ()
     if case.get("seed") not in (None, "short", "header"):
         allowed = (seed_effect(case["seed"], "thorough", case["placement"]),)
-    return [m for k, m in run_hostile(case["hostile"], case["placement"], need_fo=case.get("fo", False), probes=True, allowed=allowed)]
+    return [m for k, m in run_hostile(case["hostile"], case["placement"], need_fo=case.get("fo", False), probes=True, allowed=allowed,
+                                      no_change=bool(case.get("no_change")))]
 
 
 def preload():
